@@ -15,6 +15,10 @@ CLAIMED = {
    "same TLA+ queue model (Budget, NoOverlap, NotBeforeReady invariants) + replay of TLC scripts + trace validation against TQAcct (attempt/retry budget, no retry after fatal, no overlap, Retry-After lower bound, back-off cap)",
    "TLC exhausts the retry/back-off design on small constants with MaxRetries 2..3; the replayed runs are judged by the acceptor at the adapter and server (the points of truth): attempts <= maxretries+1, retries <= maxretries, no retry after a fatal outcome, never two transfers of one oid armed/in flight/unhandled, nothing requested or started before a Retry-After instant (real time used as lower bound only), computed back-off <= lfs.transfer.maxretrydelay, expired actions re-requested instead of used.",
    "Trusted: as C06. lfs.transfer.maxretrydelay is fixed to 1 s in the runs; expiry classes are {absent, past}.", "DESIGN.md §5 C15"),
+ "C07": ("exploration",
+   "TLA+ transcription of the pointer format (spec/Pointer.tla) enumerated completely by TLC; every abstract document rendered to bytes and decoded by the real lfs.DecodePointer; spec verdict vs observed",
+   "TLC enumerates every token document within <=1 (quick) / <=2 (thorough) edit operations of the canonical encoding of the base pointers, with the verdict the written specification gives it (must accept / must reject / open), the pointer it denotes and whether it is canonical. The real decoder's answer is compared per document: canonical forms accepted and flagged canonical, documents without a well-formed oid or size rejected, anything accepted is well-formed (64 lower hex, size>=0, unique ascending priorities 0-9), equals what the document denotes, canonical flag == byte equality with the spec's canonical form, Encoded() == that form, decode(encode(p)) == p; seeded random and mutated byte strings check totality (no panic).",
+   "Oracle is my TLA+ reading of docs/spec.md; abstract value classes are rendered to one concrete string each; inputs >1024 bytes only in the random part.", "DESIGN.md §5 C07"),
 }
 
 checks = []
